@@ -83,3 +83,39 @@ package actionlint
 // positions are values of the syntax tree: a Pos reachable from the tree is never modified in place
 //@ immutable Pos.Line C07 C09
 //@ immutable Pos.Col C07 C09
+
+// C09/C10: the variable table of a checker starts as the package-level table of built-in contexts;
+// every method that installs a job- or workflow-specific context copies the table first (and the
+// github / github.event objects before `github.event.inputs` is replaced), so nothing is ever
+// written into the table shared by all files, jobs and expressions
+//@ func (*ExprSemanticsChecker).ensureVarsCopied
+//@   props C09 C10
+//@   anchor
+//@   ensures sema.varsCopied && (old(sema.varsCopied) || fresh(sema.vars))
+//@   ensures old(sema.varsCopied) ==> sema.vars == old(sema.vars)
+//@ func (*ExprSemanticsChecker).UpdateMatrix
+//@   props C09 C10
+//@   body_calls (*ExprSemanticsChecker).ensureVarsCopied iff true
+//@ func (*ExprSemanticsChecker).UpdateSteps
+//@   props C09 C10
+//@   body_calls (*ExprSemanticsChecker).ensureVarsCopied iff true
+//@ func (*ExprSemanticsChecker).UpdateNeeds
+//@   props C09 C10
+//@   body_calls (*ExprSemanticsChecker).ensureVarsCopied iff true
+//@ func (*ExprSemanticsChecker).UpdateSecrets
+//@   props C09 C10
+//@   body_calls (*ExprSemanticsChecker).ensureVarsCopied iff true
+//@ func (*ExprSemanticsChecker).UpdateInputs
+//@   props C09 C10
+//@   body_calls (*ExprSemanticsChecker).ensureVarsCopied iff true
+//@ func (*ExprSemanticsChecker).UpdateJobs
+//@   props C09 C10
+//@   body_calls (*ExprSemanticsChecker).ensureVarsCopied iff true
+//@ func (*ExprSemanticsChecker).UpdateDispatchInputs
+//@   props C09 C10
+//@   body_calls (*ExprSemanticsChecker).ensureGithubVarCopied iff true
+//@   body_calls (*ExprSemanticsChecker).UpdateInputs iff true
+//@ func (*ExprSemanticsChecker).ensureGithubVarCopied
+//@   props C09 C10
+//@   anchor
+//@   body_calls (*ExprSemanticsChecker).ensureVarsCopied iff !old(sema.githubVarCopied)
